@@ -35,7 +35,7 @@ MANIFEST = {
             "model of pycoin's own VM (decoder, conditional counters, every handler of the generated INSTRUCTION_LOOKUP, CHECKSIG family, "
             "check_solution pipeline) is tied to the code by generated tables and exact differential correspondence (stack, alt stack, op "
             "count, errno), and proved to refine the specification (Props/C03.lean, C03_model_*): conditional counters = vfExec for every op "
-            "sequence; IntStreamer = CScriptNum; get_opcode = GetScriptOp + CheckMinimalPush for every script and pc; eval_instruction = one "
+            "sequence; IntStreamer = CScriptNum; get_opcode = GetScriptOp + CheckMinimalPush for every script and pc; check_valid_signature = IsValidSignatureEncoding, hash-type and public-key encoding checks = Core's predicates, for every byte string; eval_instruction = one "
             "iteration of Core's loop for every state and every opcode outside the CHECKSIG family; eval_script = EvalScript (verdict and "
             "final stack) for every script without CHECKSIG-family instructions.",
     "note": "The signature check inside the spec is a parameter answered by a sig-oracle computed by the implementation's sighash and ECDSA "
